@@ -23,6 +23,7 @@ fn main() {
         "C07" => actor::c07(&args),
         "C18" => actor::c18(&args),
         "C19" => actor::c19(&args),
+        "C19-batch" => actor::c19_batch(&args),
         "C03" => crdt::c03(&args),
         "C04" => crdt::c04(&args),
         "C05" => crdt::c05(&args),
